@@ -37,7 +37,7 @@ Qed.
 
 (* ================================================================== isolation between peers *)
 Definition uev_peer (e : uev) : peer :=
-  match e with UValidate p | UOpened p _ | UClosed p | UFail p _ | UNotif p => p end.
+  match e with UValidate p | UOpened p _ | UClosed p | UFail p _ | UNotif p | UClosedT p _ => p end.
 Definition call_peer (c : call) : peer :=
   match c with CDial p | COpen p _ | CForce p | CRet p _ | CWire p _ _ => p end.
 
@@ -80,12 +80,18 @@ Ltac isos_close B :=
           intros ->;
           match goal with Hf : first_req ?p (spend ?s) = Some ?x |- _ =>
             apply Hq; eapply (spend_owner s x p q B); [exact H | apply first_req_in; exact Hf] end ].
-Ltac isoo_close := split; repeat match goal with |- context [if ?b then _ else _] => destruct b end; repeat constructor.
+Lemma shut_ev_peer s p : Forall (fun e => uev_peer e = p) (shut_ev s p).
+Proof.
+  unfold shut_ev. destruct (ps s p) as [[]|]; try constructor. destruct (task_closed s k); repeat constructor.
+Qed.
+
+Ltac isoo_close := split; repeat match goal with |- context [if ?b then _ else _] => destruct b end;
+  repeat first [apply shut_ev_peer | constructor].
 Ltac iso_close B := split; [isof_close | split; [isos_close B | isoo_close]].
 
 Ltac sig_ev T :=
   match goal with
-  | H0 : ?ev = [] \/ (exists t, find_task ?k _ = Some t /\ ?ev = [UClosed (t_peer t)]), Hp : ps ?s ?p = Some (Open ?k) |- _ =>
+  | H0 : ?ev = [] \/ (exists t, find_task ?k _ = Some t /\ ?ev = [UClosedT (t_peer t) ?k]), Hp : ps ?s ?p = Some (Open ?k) |- _ =>
       let t := fresh "t" in let F := fresh "F" in let In1 := fresh "In1" in let Id1 := fresh "Id1" in
       destruct H0 as [->|(t & F & ->)];
       [| setters; apply find_task_some in F; destruct F as [In1 Id1];
@@ -129,7 +135,9 @@ Proof.
             try (apply iso_shutdown_after; iso_close B; fail); fail).
   - match type of M with context [finish_tasks ?a ?b] => destruct (finish_tasks a b) as [[l' e'] n'] eqn:F end.
     apply finish_tasks_evs in F. split_all.
-    assert (I : iso s (set_tasks s l') p ev []) by (split; [isof_close | split; [isos_close B | split; [exact F|constructor]]]).
+    assert (I : iso s (set_tasks s l') p (e' ++ (if n' =? 0 then [] else shut_ev (set_tasks s l') p)) []).
+    { split; [isof_close | split; [isos_close B | split; [|constructor]]]. apply Forall_app. split; [exact F|].
+      destruct (n' =? 0); [constructor|apply shut_ev_peer]. }
     unfold run_shutdowns. match goal with |- context [if ?b then _ else _] => destruct b end; auto.
     now apply iso_shutdown_after.
   - injection M as <- <- <-. apply iso_calls. unfold handle_send. destruct (hsink s p) as [k|] eqn:E.
@@ -187,7 +195,8 @@ Proof.
     + intros H. destruct (IH (set_hsink (set_hopen s p true) p (lastt s p)) _ _ _ T (SK_hsink_last s p T K) H) as (A & B & C & D). setters.
       split; [exact A|]. split; [|split; auto].
       intros q Hq. destruct (B q Hq) as [B1 B2]. rewrite upd_other in B1 by exact Hq. auto.
-    + destruct (drain (set_hsink (set_hopen s p false) p None) t) as [[a b] c0] eqn:E. intros H; injection H as <- <- <-.
+    + cbn [closed_report]. destruct (current s p None); [|intros H; eapply IH; eauto].
+      destruct (drain (set_hsink (set_hopen s p false) p None) t) as [[a b] c0] eqn:E. intros H; injection H as <- <- <-.
       destruct (IH (set_hsink (set_hopen s p false) p None) _ _ _ T (SK_hsink_none s p K) E) as (A & B & C & D). setters.
       split; [exact A|]. split; [|split; auto].
       * intros q Hq. destruct (B q Hq) as [B1 B2]. rewrite upd_other in B1 by exact Hq. auto.
@@ -197,6 +206,27 @@ Proof.
         apply (K p k0). left. exact HS.
     + intros H. eapply IH; eauto.
     + intros H. eapply IH; eauto.
+    + cbn [closed_report]. destruct (current s p (Some k)); [|intros H; eapply IH; eauto].
+      destruct (drain (set_hsink (set_hopen s p false) p None) t) as [[a b] c0] eqn:E. intros H; injection H as <- <- <-.
+      destruct (IH (set_hsink (set_hopen s p false) p None) _ _ _ T (SK_hsink_none s p K) E) as (A & B & C & D). setters.
+      split; [exact A|]. split; [|split; auto].
+      * intros q Hq. destruct (B q Hq) as [B1 B2]. rewrite upd_other in B1 by exact Hq. auto.
+      * intros k1 Hk. apply in_app_or in Hk. destruct Hk as [Hk|Hk]; [|apply D; exact Hk].
+        destruct (hsink s p) as [k0|] eqn:HS; [|destruct Hk].
+        destruct (running s k0 && _); [|destruct Hk]. destruct Hk as [<-|[]].
+        apply (K p k0). left. exact HS.
+Qed.
+
+Lemma delivered_peer p ev : Forall (fun e => uev_peer e = p) ev -> forall s, Forall (fun e => uev_peer e = p) (delivered s ev).
+Proof.
+  induction 1 as [|e t He _ IH]; intros s; cbn [delivered]; [constructor|].
+  destruct e; cbn [closed_report]; cbn in He.
+  - constructor; auto.
+  - constructor; auto.
+  - destruct (current s p0 None); [constructor|]; auto.
+  - constructor; auto.
+  - constructor; auto.
+  - destruct (current s p0 (Some k)); [constructor|]; auto.
 Qed.
 
 Lemma iso_of_drain s s' p :
@@ -224,7 +254,7 @@ Proof.
   destruct (t_closing t); [intros E; injection E as <- <-; apply iso_refl|].
   destruct (t_gated t); intros E; injection E as <- <-.
   - split; [isof_close|split; [intros q y Hq; setters; tauto|split; constructor]].
-  - apply iso_shutdown_after. split; [isof_close|split; [intros q y Hq; setters; tauto|split; repeat constructor]].
+  - apply iso_shutdown_after. split; [isof_close|split; [intros q y Hq; setters; tauto|split; repeat first [apply shut_ev_peer | constructor]]].
 Qed.
 
 Lemma task_dies_le s k s' ev : task_dies s k = (s', ev) -> tasks_le (tasks s) (tasks s').
@@ -304,7 +334,8 @@ Proof.
     eapply isoS_trans; [split; [exact F2|exact S2]|].
     eapply isoS_trans; [split; [exact F4|exact S4]|]. split; [exact F5|exact S5]. }
   destruct ST as [FF SS]. split; [exact FF|split; [exact SS|split]].
-  - repeat (apply Forall_app; split); auto.
+  - apply Forall_app; split; [apply delivered_peer; exact O1|].
+    apply Forall_app; split; [|apply delivered_peer; exact O4].
     apply Forall_forall. intros e He. apply in_map_iff in He. destruct He as (q & <- & Hq).
     apply filter_In in Hq. cbn. apply (notifs_peer s o). tauto.
   - exact C1.
